@@ -97,7 +97,8 @@ pub fn near_miss(t: &TD, rng: &mut Rng) -> Option<TD> {
         None
     }
     let r = go(t, target, &mut counter, rng)?;
-    if r.canon() == t.canon() {
+    if r.canon() == t.canon() || !td_wellformed(&r) {
+        // (an image whose index was moved past one of its own bare placeholders has the same spelling as the original)
         None
     } else {
         Some(r)
@@ -299,6 +300,8 @@ enum How {
     Clone,
     /// built by the constructors on a freshly spawned thread and handed over
     Thread,
+    /// ASCII text through the lexical parser and then folded
+    LexFold,
 }
 
 fn build_how(t: &TD, how: How, rng: &mut Rng) -> Option<Term> {
@@ -309,6 +312,13 @@ fn build_how(t: &TD, how: How, rng: &mut Rng) -> Option<Term> {
             std::thread::spawn(move || d.build()).join().ok()
         }
         How::Mixed => Some(build_mixed(t, rng)),
+        How::LexFold => {
+            let s = Fmt::Ascii.e().format_term(&t.build());
+            match lex_fold_value(Fmt::Ascii, &s) {
+                Some(Narsese::Term(p)) => Some(p),
+                _ => None, // owned by C03
+            }
+        }
         How::ParseAscii | How::ParseHan | How::ParseLatex => {
             let f = match how {
                 How::ParseAscii => Fmt::Ascii,
@@ -352,6 +362,7 @@ fn how_name(h: How) -> &'static str {
         How::ParseLatex => "parse-latex",
         How::Clone => "clone",
         How::Thread => "ctor-on-another-thread",
+        How::LexFold => "lexical-parse+fold",
     }
 }
 
@@ -416,7 +427,7 @@ pub fn run(ctx: &mut Ctx, hash: bool) {
                 };
                 let da = mk(&perms[0], false);
                 let db = mk(p, p[0] % 2 == 1);
-                for how in [How::Ctor, How::ParseAscii, How::Thread] {
+                for how in [How::Ctor, How::ParseAscii, How::Thread, How::LexFold] {
                     ctx.report.eval();
                     ctx.report.bump("family.small-scope");
                     if has_nested_unordered(&da) {
@@ -558,8 +569,8 @@ pub fn run(ctx: &mut Ctx, hash: bool) {
             if rng.chance(1, 40) {
                 How::Thread
             } else {
-                let pool = [How::Ctor, How::Mixed, How::ParseAscii, How::ParseHan, How::ParseLatex, How::Clone];
-                *rng.pick(&pool[..if with_clone { 6 } else { 5 }])
+                let pool = [How::Ctor, How::Mixed, How::ParseAscii, How::ParseHan, How::ParseLatex, How::LexFold, How::Clone];
+                *rng.pick(&pool[..if with_clone { 7 } else { 6 }])
             }
         };
         let how_a = pick_how(&mut rng, false);
@@ -626,6 +637,7 @@ pub fn replay(ctx: &mut Ctx, d: &J, hash: bool) -> Option<()> {
         "parse-latex" => How::ParseLatex,
         "clone" => How::Clone,
         "ctor-on-another-thread" => How::Thread,
+        "lexical-parse+fold" => How::LexFold,
         _ => How::Ctor,
     };
     let ha = parse_how(&jstr(d, "how_a").unwrap_or_default());
